@@ -17,9 +17,10 @@ RULE = (
     "incoming ARP}) on a subject node 's' with an always-on peer 'p' (and a second peer 'q' behind network nodes). "
     "Exhaustive part: every sequence of the 8-symbol alphabet to depth 3 (quick) / 4 (thorough) that contains at least one "
     "shutdown or reset (sequences without one never leave ON), for every node type and every duration pair in {0,1}^2 "
-    "(quick) / {0,1,2}^2 (thorough); random part: Hypothesis sequences to depth 25 (blocks 'power request + 0..8 ticks / foreign operations') with durations "
-    "in {0..4}^2 and the initial state ON or OFF. After every op the reference power FSM is compared with Node.operating_state and, while the "
-    "node is not ON, the gating battery runs (interfaces, monitors on its interfaces, its software, ~12 well-formed "
+    "(quick) / {0,1,2}^2 (thorough); random part: Hypothesis sequences to depth 25 (blocks 'power request + 0..8 ticks / "
+    "foreign operations') with durations in {0..4}^2 and the initial state ON or OFF. After every op the reference power "
+    "FSM is compared with Node.operating_state and, while the node is not ON, the gating battery runs (interfaces, "
+    "monitors on its interfaces, its software, ~12 well-formed "
     "requests, ping / ARP / directly delivered frames). Non-trivial = the sequence itself contains a service/file request "
     "or incoming ping/ARP issued while the node is transitional or OFF; distinct by hash of the whole case."
 )
